@@ -18,6 +18,7 @@ from .. import common, build, conf as C
 
 TOKEN_CHARS = set('abcdefghijklmnopqrstuvwxyzABCDEFGHIJKLMNOPQRSTUVWXYZ0123456789-._#')
 ESC = '\a\b\f\n\r\t\v\\"/A'
+HEXY = 'J\xab\xc3\xa9\x0a\x1f\x7f:\xff'     # bytes whose two-digit hexadecimal spelling has letters
 LONG = 'x' * 300
 
 MENU = [
@@ -48,7 +49,9 @@ def quote(s, style=0):
     style 3: control characters, blank, ':' and '/' written as backslash + the literal byte"""
     o = ['"']
     for ch in s:
-        if style == 3 and (ch in '\t\n\r\f\v\a\b' or ch in ' :/'):
+        if style == 4 and not ch.isalnum():
+            o.append('\\x%02X' % ord(ch))           # upper-case hexadecimal digits
+        elif style == 3 and (ch in '\t\n\r\f\v\a\b' or ch in ' :/'):
             o.append('\\' + ch)             # an unsupported escape: backslash + the literal byte stands for that byte
         elif style == 1 and not ch.isalnum():
             o.append('\\x%02x' % ord(ch))
@@ -81,6 +84,8 @@ class R:
             opts.append(text)
         if any(not c.isalnum() for c in text):
             opts.append(quote(text, 1))
+        if any((not c.isalnum()) and ('%02x' % ord(c)) != ('%02X' % ord(c)) for c in text):
+            opts.append(quote(text, 4))
         if any(c in '/: ' for c in text):
             opts.append(quote(text, 2))
         if any(c in '\t\n\r\f\v\a\b :/' for c in text):
@@ -171,7 +176,7 @@ def trees(quick):
     for n in (1, 2, 3):
         for comb in itertools.product(range(len(MENU)), repeat=n):
             ts.append([MENU[i] for i in comb])
-    singles = [[('e', 's', ch)] for ch in ESC] + [[('e', 's', ESC)], [('e', 's', '')], [('e', 's', LONG)], [('e', 'l', ('', ESC, LONG))],
+    singles = [[('e', 's', ch)] for ch in ESC] + [[('e', 's', HEXY)], [('e', 'l', (HEXY, 'plain'))], [('e', 's', ESC)], [('e', 's', '')], [('e', 's', LONG)], [('e', 'l', ('', ESC, LONG))],
                                                     [('e', 'i', ('::1', '')), ('f', 'i', ('', 'http'))], [('my name', 's', 'v')], [('123', 's', '456')], [('a-b.c_d#e', 's', '#-._')],
                                                     [('o', 'o', [('p', 'o', [('q', 'o', [('r', 's', 'v')])])])], [('o', 'o', [('x', 's', '1')]), ('o', 'o', [('x', 's', '2')]), ('o', 'o', [('y', 's', '3')])],
                                                     [('k', 's', '1'), ('k', 'l', ('1',)), ('k', 'i', ('1', '2')), ('k', 'o', [])]]
@@ -284,6 +289,27 @@ def _typed_task(srv, item):
     return out
 
 
+def _typed_sequence_task(srv, item):
+    """All five typed settings registered in ONE process; a file with extreme but legal literals (or a rejected file) is loaded first,
+    then a file with ordinary values: every setting must deliver the ordinary value (nothing process-wide - errno, parser statics -
+    may carry over from the earlier load)."""
+    first = item
+    regs = [C.reg_string('t%d' % st, None, st) for st in (1, 2, 3, 4, 5)]
+    normal = {1: ('yes', 1), 2: ('42', 42), 3: ('2.5', repr(2.5)), 4: ('1h30', 3630), 5: ('3K', 3072)}
+    f2 = ''.join('t%d %s\n' % (st, quote(v[0])) for st, v in normal.items()).encode()
+    h, res = srv.expand(regs + [C.load(first)], [C.load(f2)])
+    r = res[0]
+    out = []
+    for st, (txt, want) in normal.items():
+        got = _pv(r['dump'], 't%d' % st) if r.get('status') == 'ok' and r.get('rc') == 0 else ('%s rc=%s' % (r.get('status'), r.get('rc')))
+        out.append((st, txt, want, got, got == want, first.decode('latin-1')))
+    return out
+
+
+EXTREME_FIRST = [b't3 "1e-400"\n', b't3 "1e999"\nt2 "7"\n', b't2 "99999999999999999999999"\n', b't3 "-1e999"\n', b't4 "99999999999y"\n', b't5 "9999999999G"\n',
+                 b't2 "12z"\nt3 "x"\n', b't1 "maybe"\n', b't2 (unterminated\n', b't3 "0.0000000000000000000000000000000000000000000000000000000000000000000000000000000000000000000000000000001e-300"\n']
+
+
 def describe(points, dev):
     return ', '.join('%s#%d=option %d' % (points[i][0], i, k) for i, k in sorted(dev.items())) or 'default rendering'
 
@@ -382,6 +408,16 @@ def main(tier):
                     cls = 'C16.typed/%s/%s' % (SUBNAME[st], 'unparsable-accepted' if unp else 'wrong-value')
                     run.violation(cls, '%s value %r: expected %s, the setting delivers %r' % (SUBNAME[st], text, want, got),
                                   {'engine': 'conf', 'typed': [st, text], 'expected': want}, dedup=cls)
+        for res in (pool.imap(_typed_sequence_task, EXTREME_FIRST) if not run.capped else []):
+            if isinstance(res, dict):
+                raise common.HarnessError(res['harness_error'])
+            for st, text, want, got, ok, first in res:
+                n_typed += 1
+                if not ok:
+                    n_typed_bad += 1
+                    cls = 'C16.typed/%s/after-earlier-load' % SUBNAME[st]
+                    run.violation(cls, '%s value %r loaded after the file %r in the same process: expected %r, the setting delivers %r' % (SUBNAME[st], text, first, want, got),
+                                  {'engine': 'conf', 'typed_sequence': first}, dedup=cls)
     if (n_ok < 1000 or n_typed < 500) and not run.violations and not run.capped:
         raise common.HarnessError('vacuous: %d files read back correctly, %d typed values' % (n_ok, n_typed))
     cov = {'evaluations': nfiles + n_typed, 'distinct_nontrivial': len(distinct) + n_typed,
@@ -409,6 +445,10 @@ def replay(obj):
             want = {(a, k): (tuple(v) if isinstance(v, list) else v) for a, k, v in r['expected']}
             print('file: %r\nstatus=%s rc=%s\nread:    %s\nwritten: %s' % (r['file'], x.get('status'), x.get('rc'), sorted(got.items()) if got is not None else None, sorted(want.items())))
             bad = got != want
+        elif 'typed_sequence' in r:
+            res = _typed_sequence_task(s, r['typed_sequence'].encode('latin-1'))
+            print(res)
+            bad = any(not x[4] for x in res)
         else:
             res = _typed_task(s, [tuple(r['typed']) + (None if str(r['expected']).startswith('rejected') else r['expected'],)])
             print(res)
